@@ -404,14 +404,28 @@ def search(pool, tier: str, seed: int, deadline: float, agg: Agg) -> None:
     agg.planned = len(cases)
     got: dict[int, dict[int, dict]] = {}
 
-    def on_result(i: int, r: dict) -> None:
-        if not r.get("ok"):
-            agg.harness.append((i, r))
-            return
-        ci, wi = where[i]
-        got.setdefault(ci, {})[wi] = r["result"]["runs"][0]
+    def on_result_for(base):
+        def on_result(i: int, r: dict) -> None:
+            if not r.get("ok"):
+                agg.harness.append((i, r))
+                return
+            ci, wi = where[base + i]
+            got.setdefault(ci, {})[wi] = r["result"]["runs"][0]
+        return on_result
 
-    pool.run(jobs, deadline=deadline, on_result=on_result, stop_when=lambda: len(agg.harness) > 0)
+    # waves of inputs, so that a budget cut leaves complete cases behind (a case is judged only when every one of
+    # its worlds was observed)
+    import time as _time
+
+    wave = 400 if tier == "quick" else 160
+    starts = {}
+    for ji, (ci, _wi) in enumerate(where):
+        starts.setdefault(ci // wave, [ji, ji])[1] = ji
+    for wv in sorted(starts):
+        if _time.monotonic() > deadline or agg.harness:
+            break
+        lo, hi = starts[wv]
+        pool.run(jobs[lo:hi + 1], deadline=deadline, on_result=on_result_for(lo), stop_when=lambda: len(agg.harness) > 0)
     srcs = {}
     for ci, c in enumerate(cases):
         obs = got.get(ci, {})
